@@ -1,4 +1,4 @@
-//! `nms n (aspect height score|- xc yc angle|-)*n thr sthr|-`
+//! `nms n (aspect height score|- xc yc angle|- stale)*n thr sthr|-`
 //! answer: n*n coverage bits (row a, column b: inter(a,b)/area(b) > thr, computed with the
 //! implementation's own `intersection` and `area`), kept positions, positions kept by a second
 //! application to the output (with the same scores).
@@ -10,6 +10,7 @@ use similari::utils::nms::nms;
 pub fn exec(_ctx: &mut Ctx, t: &mut Toks) -> String {
     let n = t.usize();
     let mut dets: Vec<(Universal2DBox, Option<f32>)> = Vec::new();
+    let mut fresh: Vec<Universal2DBox> = Vec::new();
     for _ in 0..n {
         let aspect = t.f32();
         let height = t.f32();
@@ -17,7 +18,26 @@ pub fn exec(_ctx: &mut Ctx, t: &mut Toks) -> String {
         let xc = t.f32();
         let yc = t.f32();
         let angle = t.opt_f32();
-        dets.push((Universal2DBox::new(xc, yc, angle, aspect, height), score));
+        let stale = t.usize();
+        let b = if stale == 1 {
+            // the box had its vertices generated while it had another geometry, then was mutated through
+            // the public fields / rotate_mut: the result must only depend on the current field values
+            let mut b = Universal2DBox::new(xc + 3.0, yc - 2.0, Some(angle.unwrap_or(0.0) + 0.7), aspect * 1.5, height * 0.5);
+            b.gen_vertices();
+            b.xc = xc;
+            b.yc = yc;
+            b.aspect = aspect;
+            b.height = height;
+            match angle {
+                Some(a) => b.rotate_mut(a),
+                None => b.angle = None,
+            }
+            b
+        } else {
+            Universal2DBox::new(xc, yc, angle, aspect, height)
+        };
+        fresh.push(Universal2DBox::new(xc, yc, angle, aspect, height));
+        dets.push((b, score));
     }
     let thr = t.f32();
     let sthr = t.opt_f32();
@@ -25,8 +45,8 @@ pub fn exec(_ctx: &mut Ctx, t: &mut Toks) -> String {
     for a in 0..n {
         for b in 0..n {
             let valid = |x: &Universal2DBox| x.height > 0.0 && x.aspect > 0.0;
-            let bit = if a != b && valid(&dets[a].0) && valid(&dets[b].0) {
-                let m = Universal2DBox::intersection(&dets[a].0, &dets[b].0) as f32 / dets[b].0.area();
+            let bit = if a != b && valid(&fresh[a]) && valid(&fresh[b]) {
+                let m = Universal2DBox::intersection(&fresh[a], &fresh[b]) as f32 / fresh[b].area();
                 m > thr
             } else {
                 false
